@@ -28,7 +28,7 @@ class Untranslatable(Exception):
 
 BITS = {"u8": 8, "u16": 16, "u32": 32, "u64": 64, "usize": 64, "u128": 128}
 
-TOKEN = re.compile(r"\s*(?:(0x[0-9a-fA-F_]+(?:_?(?:u8|u16|u32|u64|usize|u128))?|\d[\d_]*(?:_?(?:u8|u16|u32|u64|usize|u128))?)|([A-Za-z_]\w*)|(<<=|>>=|\.\.=|==|!=|<=|>=|&&|\|\||<<|>>|\+=|-=|\*=|/=|%=|\^=|&=|\|=|::|->|=>|\.\.|[-+*/%^&|!<>=(){}\[\];:,.#?]))")
+TOKEN = re.compile(r"\s*(?:(0x[0-9a-fA-F_]+(?:_?(?:u8|u16|u32|u64|usize|u128))?|\d[\d_]*(?:_?(?:u8|u16|u32|u64|usize|u128))?)|([A-Za-z_]\w*)|(<<=|>>=|\.\.=|==|!=|<=|>=|=>|&&|\|\||<<|>>|\+=|-=|\*=|/=|%=|\^=|&=|\|=|::|->|\.\.|[-+*/%^&|!<>=(){}\[\];:,.#?]))")
 
 def tokenize(src):
     out, i = [], 0
@@ -218,6 +218,26 @@ class Parser:
         if k == "id":
             if v == "if":
                 self.i -= 1; return self.if_()
+            if v == "match":
+                self.nostruct += 1
+                scrut = self.expr(no_struct=True)
+                self.nostruct -= 1
+                self.expect("{")
+                arms = []
+                while not self.accept("}"):
+                    path = [self.next()[1]]
+                    while self.peek() == ("op", "::"):
+                        self.next(); path.append(self.next()[1])
+                    binds = []
+                    if self.accept("("):
+                        while not self.accept(")"):
+                            binds.append(self.next()[1]); self.accept(",")
+                    self.expect("=>")
+                    if self.peek() == ("op", "{"): body = ("block", self.block())
+                    else: body = self.expr()
+                    self.accept(",")
+                    arms.append(("::".join(path), binds, body))
+                return ("match", scrut, arms)
             if v == "vec" and self.peek() == ("op", "!"):
                 self.next()
                 if self.peek() != ("op", "["): raise Untranslatable("vec! without brackets")
@@ -288,6 +308,8 @@ class Gen:
         self.identity_calls = set()     # wrappers that do not change the bytes (X::from_le_bytes, .as_le_bytes(), ...)
         self.big = None                 # big-integer mode: dict(be=, into=, gen_params=set(), prime_params=set()) or None
         self.loop_depth = 0             # >0 while translating a `for` body: `return e` leaves the loop with (inl e)
+        self.match_patterns = {}        # rust path of a variant -> (gallina constructor, [types of its fields])
+        self.fn_final = None            # function-level result builder: `?` and `return` leave the function through it
         self.self_calls = {}            # method name -> (translated function over the self fields, ["self.f", ..]): returns (fields, value)
         self.opt_calls = {}             # rust path -> (gallina function returning option R, type label of R): other translated functions
         self.ctor_calls = {}            # rust path of a tuple variant / constructor -> gallina constructor (applied to its arguments)
@@ -315,6 +337,33 @@ class Gen:
         if kind == "deref": return self.expr(e[1], k, want)
         if kind == "num":
             return k(str(e[1]), e[2] or want)
+        if kind == "block":
+            saved = dict(self.env)
+            def fin_block(tail):
+                if tail is None: raise Untranslatable("block expression without a value")
+                r = k(tail[0], tail[1])
+                return r
+            r = self.stmts(list(e[1]), fin_block)
+            self.env = saved
+            return r
+        if kind == "match":
+            arms = e[2]
+            pats = self.match_patterns
+            def ksc(sv, st_):
+                out = []
+                for path, binds, body in arms:
+                    if path not in pats: raise Untranslatable("match pattern %s" % path)
+                    ctor, tys = pats[path]
+                    if len(binds) != len(tys): raise Untranslatable("pattern arity %s" % path)
+                    saved = dict(self.env)
+                    names = []
+                    for b_, ty_ in zip(binds, tys):
+                        self.env[b_] = ("v_" + b_, ty_); names.append("v_" + b_)
+                    pat = ctor + ("" if not names else " " + " ".join(names))
+                    out.append("| %s =>\n  %s" % (pat, self.expr(body, k, want)))
+                    self.env = saved
+                return "match %s with\n  %s end" % (sv, "\n  ".join(out))
+            return self.expr(e[1], ksc)
         if kind == "unit":
             return k("tt", "unit")
         if kind == "id" and e[1] in self.enums:
@@ -788,13 +837,13 @@ class Gen:
                 bg, bty = self.env[bkey]
                 kd = self.fresh("kd"); tb = self.fresh("b")
                 return ("match read_exact (length %s) %s with\n  | Ok (%s, %s) => let %s := %s in\n  %s\n  | Err %s => %s\n  | Panic => None end"
-                        % (bg, iog, tb, iog, bg, tb, self.stmts(rest, final), kd, final(("(inr %s)" % kd, "result"))))
+                        % (bg, iog, tb, iog, bg, tb, self.stmts(rest, final), kd, (self.fn_final or final)(("(inr %s)" % kd, "result"))))
             if ioty != "writer": raise Untranslatable("write_all on a non-writer")
             def kw(b, tb_):
                 kd = self.fresh("kd"); r_ = self.fresh("r")
                 ok = self.stmts(rest, final)
                 return ("let '(%s, %s) := io_write_all %s %s in\n  match %s with\n  | Ok _ => %s\n  | Err %s => %s\n  | Panic => None end"
-                        % (iog, r_, b, iog, r_, ok, kd, final(("(inr %s)" % kd, "result"))))
+                        % (iog, r_, b, iog, r_, ok, kd, (self.fn_final or final)(("(inr %s)" % kd, "result"))))
             return self.expr(call[3][0], kw)
         if s[0] == "expr_stmt" and s[1][0] == "call" and s[1][2] == "randomize_data" and not s[1][3]:
             key = self.lhs_key(s[1][1])
